@@ -840,6 +840,9 @@ package core
 //@   ensures[C02.ti_search_refuses_no_terms] len(terms) == 0 ==> result1 != nil
 //@   assert[C02.ti_search_works_on_a_copy]  at "candidates.Rem(id)": fresh(candidates)
 //@   assert[C02.ti_search_intersects]       at "candidates.Rem(id)": !present
+// a non-empty answer is the array of the candidate set computed by THIS call (nothing remembered from another search)
+//@   mark[intersected] at "call:Array": true
+//@   ensures[C02.ti_search_answers_from_its_own_intersection] result1 == nil && len(result0) > 0 ==> marked(intersected)
 
 //@ func (*IndexedState).add
 //@   assert[C02.ix_add_indexes_each_extracted_term] at "s.FactIndex.Add(ctx, term, id)": true
